@@ -17,6 +17,11 @@ CHECKS = {
          "Thousands of generated scenarios on the real BackgroundTaskManager (concurrency 1-4, silence 0-30 ms, up to 16 invokers and 8 prioritized clients, bodies that react to cancellation immediately/late/at the end) in the race build. A monitor fed by hook points inside the manager's own critical sections decides: no start while prioritized work is in progress, silence period respected (one-sided-safe stamps), concurrency bound, no self-overlap, nothing running at return, cancellation delivered, completion at quiescence (decided on goroutine state, not on time). Holds on the executions observed.",
          "Trusted: the hook points task.pbegin/pend/start/cancel are placed as DESIGN.md section 5 C13 argues (pend before the decrement => monitor count <= real count); runtime.Stack snapshots for the quiescence decision; CLOCK_MONOTONIC; the Go race detector.",
          "DESIGN.md section 5 C13"),
+ "C20": ("exploration",
+         "round-trip differential oracle over generated manifests (real writer handlers -> real readers) + request-log monitor on a real FUSE mount",
+         "Generated manifests (0-80 layers, non-layer children, repeated digests, URL lists around the label size limit) are enumerated by containerd's real ChildrenHandler, labelled by both real writer flavours and read back by both real readers; every layer descriptor is checked (labels.Validate, same reference/digest/URLs, neighbours a prefix in manifest order each with its own URLs, prefetch size round-trips), every subset of <=3 labels removed/corrupted must be rejected or spell the same source; an L3 stage hands the labels to a real fs.Mount over FUSE and judges the registry request log. Holds on the manifests generated.",
+         "Trusted: containerd's images.ChildrenHandler, snapshotters.AppendInfoHandlerWrapper, labels.Validate and FilterInheritedLabels (third-party, used as the real pipeline); the manifest generator's model of what was written. Domain limits: URLs without ',', well-formed references < 1 KiB.",
+         "DESIGN.md section 5 C20"),
 }
 
 PENDING_REASON = "check not built yet in this session (work in progress; DESIGN.md section 5 describes the planned runtime monitor)"
